@@ -427,6 +427,37 @@ def check_minipd():
     n += 1
     if len(minipd.DataFrame(rows1).copy()) != len(pd.DataFrame(rows1).copy(deep=True)):
         return n, "MiniPD.copy differs"
+    # compression is inferred from the end of the file name, for writing and for reading
+    import os
+    import shutil
+    import tempfile
+
+    from . import fakefs, minixr
+
+    tmp = tempfile.mkdtemp()
+    old_fs = minixr._FS[0]
+    minixr._FS[0] = fs = fakefs.FakeFS()
+    fs.makedirs(tmp, exist_ok=True)
+    try:
+        for wname, rname in (("t.pkl", "t.pkl"), ("t.pkl.gz", "t.pkl.gz"), ("u.pkl.gz.tmp", "u.pkl.gz"),
+                             (".tmp-v.pkl.gz", "v.pkl.gz"), ("w.pkl.gz", "w.pkl")):
+            outs = []
+            for lib, frame in ((pd, pd.DataFrame(rows1)), (minipd.MiniPDModule, minipd.DataFrame(rows1))):
+                a, b = os.path.join(tmp, wname), os.path.join(tmp, rname)
+                frame.to_pickle(a)
+                if a != b:
+                    (os.replace if lib is pd else fs.replace)(a, b)
+                try:
+                    lib.read_pickle(b)
+                    outs.append("ok")
+                except Exception:  # noqa
+                    outs.append("exc")
+            n += 1
+            if outs[0] != outs[1]:
+                return n, "to_pickle(%s) -> read_pickle(%s): pandas %s, MiniPD %s" % (wname, rname, outs[0], outs[1])
+    finally:
+        minixr._FS[0] = old_fs
+        shutil.rmtree(tmp, ignore_errors=True)
     return n, None
 
 
